@@ -26,7 +26,7 @@ fn report(evals: &'static str, rule: &str, floors: Vec<Floor>, assumptions: &[&s
 
 // ---------------------------------------------------------------------------------------------
 pub fn c04(cfg: &Cfg) -> i32 {
-    let per_class = cfg.n(150, 3000);
+    let per_class = cfg.n(150, 20_000);
     let sink = run_parallel(cfg, |w, sink| {
         let mut mon = C04::default();
         let mut rng = Rng::new(cfg.seed, 0x400 + w as u64);
@@ -64,7 +64,7 @@ pub fn c04(cfg: &Cfg) -> i32 {
             }
         }
         // W4c: barely mobile movers (immobilised, or only pushes available)
-        for k in 0..cfg.n(40_000, 1_000_000) {
+        for k in 0..cfg.n(40_000, 6_000_000) {
             if let Some((b, g, mv)) = gen::w4c(&mut rng) {
                 let start = if rng.chance(1, 20) { Start::Text { board: b, gold: g, moveno: mv } } else { Start::Inject { board: b, gold: g, moveno: mv } };
                 let mut rec = GameRecord::new("W4c-barely-mobile", cfg.seed, (w as u64) << 32 | k, start);
@@ -74,8 +74,8 @@ pub fn c04(cfg: &Cfg) -> i32 {
         }
         // incidental: ordinary games + goal-rush games (few pieces, rabbits advanced)
         let optg = PlayOpts { max_turns: 60, max_actions: 250, ..PlayOpts::default() };
-        play_family(Family::W1, cfg.n(2000, 30_000), cfg.seed, w, 20, &optg, &mut mon, sink);
-        play_family(Family::W2, cfg.n(2000, 30_000), cfg.seed, w, 20, &optg, &mut mon, sink);
+        play_family(Family::W1, cfg.n(2000, 150_000), cfg.seed, w, 20, &optg, &mut mon, sink);
+        play_family(Family::W2, cfg.n(2000, 150_000), cfg.seed, w, 20, &optg, &mut mon, sink);
         play_family(Family::W3, cfg.n(600, 8000), cfg.seed, w, 20, &optg, &mut mon, sink);
         play_family(Family::W7, cfg.n(60, 800), cfg.seed, w, 0, &optg, &mut mon, sink);
         sweep(2, &[0, 1, 5], 1, w, cfg.workers, 1, cfg.seed, &mut mon, sink);
@@ -384,7 +384,7 @@ pub fn c17(cfg: &Cfg) -> i32 {
 
 // ---------------------------------------------------------------------------------------------
 pub fn c19(cfg: &Cfg) -> i32 {
-    let mix = Mix { w1: (400, 12000), w2: (400, 12000), w3: (300, 8000), w5: (150, 4000), w5b: (50, 1000), w7: (60, 1500), tree_per_mille: 3, sweep2: true, sweep3: (32, 2), text_per_mille: 50, ..Mix::default() };
+    let mix = Mix { w1: (400, 12000), w2: (400, 12000), w3: (300, 8000), w5: (150, 4000), w5b: (50, 1000), w5c: (3, 60), w7: (60, 1500), tree_per_mille: 3, sweep2: true, sweep3: (32, 2), text_per_mille: 50, ..Mix::default() };
     let sink = run_mix(cfg, &mix, &|| Box::new(C19::default()));
     let mut floors = vec![floor("play_states_judged", 500_000, 5_000_000), floor("setup_states_judged", 20_000, 200_000), floor("guarded_engine_calls", 10_000_000, 100_000_000), floor("rabbit_steps", 10_000, 100_000), floor("setup_states_with_one_square_left", 1000, 10_000)];
     for t in ["r", "c", "d", "h", "m"] {
